@@ -44,7 +44,7 @@ impl Po {
     fn txt(&self) -> String { match self { Po::Ok(v) => format!("ok {}", v.join(" ")), Po::Err(k) => k.to_string(), Po::Panic => "panic".into() } }
     fn is_ok(&self) -> bool { matches!(self, Po::Ok(_)) }
 }
-fn kind(e: &FromHexError) -> &'static str {
+pub fn kind(e: &FromHexError) -> &'static str {
     match e {
         FromHexError::ParseIntError(p) => match p.kind() { IntErrorKind::Empty => "err:int:empty", IntErrorKind::InvalidDigit => "err:int:invalid",
             IntErrorKind::PosOverflow => "err:int:overflow", _ => "err:int:other" },
@@ -606,6 +606,10 @@ pub fn run(tier: &str, seed: u64, dir: &str) {
     }
 
     lap("names done");
+    // coverage audit: doors, standards, `From` forms, aliases, cast doors and iterators the clauses above do not drive (`c12_more.rs`).
+    // Called last, so that the case stream above is unchanged.
+    exh.extend(crate::c12_more::run_more(&mut out, &mut rng, deep, seed));
+    lap("coverage-audit forms done");
     let extra = format!("\"exhaustive\":{{{}}}", exh.join(","));
     out.finish(dir, &extra);
 }
